@@ -18,6 +18,7 @@ func checkC12(c *Ctx) {
 	c12Paired(c)
 	c12Constructors(c)
 	c12MutatorResults(c)
+	c12AppendNewline(c)
 	c12Mirror(c)
 	c.NotCovered("that the serialised file equals the prediction of a map/list model; comment preservation of untouched items")
 	c.NotCovered("ownership of caller-supplied token slices (whether an API entry point copies the slice it is given)")
@@ -467,4 +468,121 @@ func c12MutatorResults(c *Ctx) {
 			"the method always edits the tree but can return nil ("+why+"): the caller, told it gets the attribute or block back, dereferences nil")
 	}
 	c.Floor("mutator.result methods", n, 3, "SetAttributeRaw / SetAttributeValue / SetAttributeTraversal / AppendBlock / AppendNewBlock")
+}
+
+// R6 append.newline: an item appended by the editing API starts on a line of its own.
+func c12AppendNewline(c *Ctx) {
+	c.Rule("R6 append.newline: hclwrite.Body.appendItem (behind SetAttribute*, AppendBlock, AppendNewBlock) calls, on every path before it appends, a function of the package that appends a newline token exactly when the last token of the body's existing content does not end a line by the formatter's own predicate tokenIsNewline (a newline token, or a single-line comment that carries its newline); the loader's appendItemNode makes no such call (loading reproduces its input)")
+	ai := c.P.LookupFunc("hclwrite", "Body.appendItem")
+	ain := c.P.LookupFunc("hclwrite", "Body.appendItemNode")
+	tin := c.P.LookupFunc("hclwrite", "tokenIsNewline")
+	anl := c.P.LookupFunc("hclwrite", "Body.AppendNewline")
+	if ai == nil || ain == nil || tin == nil || anl == nil {
+		c.CheckerFail("append.newline", "anchor Body.appendItem / appendItemNode / tokenIsNewline / AppendNewline does not resolve")
+		return
+	}
+	c.Fn(FuncName(ai))
+	// a terminating helper: appends a newline on the not-a-line-end edge of tokenIsNewline(last token),
+	// and nowhere else
+	terminates := func(h *ssa.Function) (bool, string) {
+		if h == nil || len(h.Blocks) == 0 {
+			return false, "no body"
+		}
+		nAppend := 0
+		for _, b := range h.Blocks {
+			for _, ins := range b.Instrs {
+				call, ok := ins.(*ssa.Call)
+				if !ok || call.Call.StaticCallee() != anl {
+					continue
+				}
+				nAppend++
+				// the block is entered on the false edge of tokenIsNewline(...)
+				okEdge := false
+				if len(b.Preds) == 1 {
+					p := b.Preds[0]
+					if iff, isIf := p.Instrs[len(p.Instrs)-1].(*ssa.If); isIf {
+						cond, neg := iff.Cond, false
+						if u, isNot := cond.(*ssa.UnOp); isNot && u.Op == token.NOT {
+							cond, neg = u.X, true
+						}
+						if tc, isCall := cond.(*ssa.Call); isCall && tc.Call.StaticCallee() == tin {
+							// argument: element len-1 of a token slice
+							lastTok := false
+							if ld, isLd := tc.Call.Args[0].(*ssa.UnOp); isLd && ld.Op == token.MUL {
+								if ia, isIA := ld.X.(*ssa.IndexAddr); isIA {
+									if lx, cc, ok := lenMinus(ia.Index); ok && cc == 1 {
+										bc := &boundsCtx{fn: h}
+										lastTok = bc.sameSeq(lx, ia.X)
+									}
+								}
+							}
+							side := 1
+							if neg {
+								side = 0
+							}
+							okEdge = lastTok && p.Succs[side] == b
+						}
+					}
+				}
+				if !okEdge {
+					return false, "a newline is appended on a condition other than !tokenIsNewline(last token)"
+				}
+			}
+		}
+		if nAppend == 0 {
+			return false, "never appends a newline"
+		}
+		// on the is-a-line-end edge nothing is appended: covered by nAppend sites all being on the false edge
+		return true, ""
+	}
+	// appendItem: an unconditional call of such a helper before the append
+	var appendB *ssa.BasicBlock
+	for _, b := range ai.Blocks {
+		for _, ins := range b.Instrs {
+			if call, ok := ins.(*ssa.Call); ok {
+				if cal := call.Call.StaticCallee(); cal != nil && cal.Name() == "Append" && cal.Signature.Recv() != nil {
+					appendB = b
+				}
+			}
+		}
+	}
+	found, why := false, "appendItem calls no terminating helper before it appends"
+	for _, b := range ai.Blocks {
+		for _, ins := range b.Instrs {
+			call, ok := ins.(*ssa.Call)
+			if !ok {
+				continue
+			}
+			h := call.Call.StaticCallee()
+			if h == nil || fnPkg(h) == nil || fnPkg(h).Path() != hclwritePath || h == anl {
+				continue
+			}
+			if ok2, w := terminates(h); ok2 {
+				if b == ai.Blocks[0] && appendB != nil && (b == appendB || b.Dominates(appendB)) {
+					found = true
+				} else {
+					why = "the terminating helper " + h.Name() + " is called only on some paths to the append"
+				}
+			} else if h.Name() != "Append" && h.Name() != "Add" && w != "never appends a newline" {
+				why = h.Name() + ": " + w
+			}
+		}
+	}
+	c.Sites++
+	c.Check(found, "append.newline", FuncName(ai)+":terminate", ai.Pos(), "existing content is terminated before an item is appended",
+		why+": an item appended after content whose last line is unfinished (no final newline in the source, a trailing comment) lands on that line — the result does not parse, or the new item becomes part of the comment")
+	// the loader does not normalise
+	loaderClean := true
+	for _, f := range moduleCallees(ain, 1, map[*ssa.Function]bool{}) {
+		for _, b := range f.Blocks {
+			for _, ins := range b.Instrs {
+				if call, ok := ins.(*ssa.Call); ok && call.Call.StaticCallee() == anl {
+					loaderClean = false
+				}
+			}
+		}
+	}
+	c.Sites++
+	c.Check(loaderClean, "append.newline", FuncName(ain)+":verbatim", ain.Pos(), "the loader appends nothing of its own",
+		"appendItemNode, used while loading, can append a newline token: a loaded file would not be reproduced token for token")
 }
